@@ -25,7 +25,7 @@ from vlib.proto import C, T, is_c, is_t, show, subterms
 from vlib.front import unparse, dotted, const_value, AnchorMissing
 
 M = 'phylib/io/datasets.py'
-FLOOR = 9
+FLOOR = 7
 EXPLANATION = ('proto engine: every syntactic path of download_file is enumerated with its repo callees inlined '
                '(check, text download, HTTP get), external calls as fresh uninterpreted terms that may raise, '
                'file hash and stream saver summarised and checked separately; each complete event trace '
@@ -48,11 +48,14 @@ def _reaches(repo, fi, ext_names):
 def roles(ctx):
     repo = ctx.repo
     entry = repo.func(M, 'download_file')
+    # callees of the entry point; helpers extracted from it after the pinned tree are looked through (their callees count as the entry's own)
+    closure = repo.transparent_closure(entry)
     direct = []
-    for c in entry.calls():
-        for t in repo.resolve_call(entry, c):
-            if t not in direct:
-                direct.append(t)
+    for f_ in closure:
+        for c in f_.calls():
+            for t in repo.resolve_call(f_, c):
+                if t not in direct and not any(t.node is x.node for x in closure):
+                    direct.append(t)
     r = {'entry': entry}
     for t in direct:
         md5 = _reaches(repo, t, ('hashlib.md5',))
